@@ -49,7 +49,17 @@ def main(tier, seed):
                 while pending:
                     yield pending.pop()
 
-        for case, res in pool.imap_unordered(stream()):
+        def batches():
+            for cr in pool.imap_unordered(stream()):
+                yield cr
+            # fault variants of the last base histories, whose results arrived after the stream had ended
+            while pending and time.time() < deadline + 30:
+                rest = pending[:]
+                del pending[:]
+                for cr in pool.imap_unordered(iter(rest)):
+                    yield cr
+
+        for case, res in batches():
             # non-trivial for this property = something was refused / failed
             if 'harness_error' not in res:
                 pr = res.get('probes') or {}
